@@ -14,5 +14,6 @@ pthread_t spawn_vcpu(std::function<void()> body, uint64_t vcpu_flags = 0, const 
 pthread_t spawn_os(std::function<void()> body, const char* name = "os");
 void join(pthread_t t);
 // photon thread stacks from a pooled raw-mmap allocator (call once per execution before any vCPU starts)
-void use_fast_stacks();
+// poison=true: a released stack (which holds the thread struct) is poisoned until reused: any access is a violation
+void use_fast_stacks(bool poison = false);
 }
